@@ -470,11 +470,17 @@ cJSON *change_password(const struct peer *p, const cJSON *request, const char *u
 		}
 
 		cJSON *old_password = cJSON_DetachItemFromObject(user, "password");
-		cJSON_AddItemToObject(user, "password", new_password);
+		if (!cJSON_AddItemToObject(user, "password", new_password)) {
+			/* the detached item still carries its key: putting it back needs no memory */
+			cJSON_Delete(new_password);
+			cJSON_AddItemToArray(user, old_password);
+			response = create_error_response_from_request(p, request, INTERNAL_ERROR, "reason", "not enough memory for new password");
+			goto out;
+		}
 		if (write_user_data() < 0) {
 			/* the file still holds the old password, so must the daemon */
 			cJSON_DeleteItemFromObject(user, "password");
-			cJSON_AddItemToObject(user, "password", old_password);
+			cJSON_AddItemToArray(user, old_password);
 			response = create_error_response_from_request(p, request, INTERNAL_ERROR, "reason", "Could not write password file");
 			goto out;
 		}
